@@ -176,7 +176,11 @@ def child_history(steps):
         cls = classes.build(cspec)
         plain = len(step) > 4 and step[4] == "plain"
 
+        noid = len(step) > 4 and step[4] == "noid"
+
         def mk():
+            if noid:        # a record built in memory without id / name
+                return record(seq, circular=True, id_=None)
             if plain:       # a plain SeqRecord without any topology annotation (read from FASTA): circular by default
                 from Bio.Seq import Seq
                 from Bio.SeqRecord import SeqRecord
@@ -214,6 +218,8 @@ def slots_all():
 
 
 def one_query(cspec, seq, circ=True, plain=False):
+    if plain == "noid":
+        return query(classes.build(cspec), record(seq, circular=True, id_=None))
     if plain:
         from Bio.Seq import Seq
         from Bio.SeqRecord import SeqRecord
@@ -292,6 +298,15 @@ def run(tier, seed):
                 mB = members[sb["name"]]
                 rot = gen.rotate(mB, len(mB) - rng.randrange(3, 9))
                 histories.append([(sp, rot, True, True, "plain"), (sb, rot, True, True, "plain")])
+    # classes of different kits with the very same structure (their cutters are different objects: BbsI / BpiI), one after the other
+    for sa, ca in kcs:
+        for sb, cb in kcs:
+            if ca is not cb and sa["kit"] != sb["kit"] and ca.structure() == cb.structure():
+                histories.append([(sa, members[sa["name"]]), (sb, members[sa["name"]]), (sb, members[sb["name"]])])
+    # records built in memory without identifiers, typed (targets included) by several classes in a row
+    for sa, sb in (rng.sample(pairs, min(len(pairs), 25)) if q else pairs):
+        histories.append([(sa, members[sa["name"]], True, False, "noid"), (sb, members[sb["name"]], True, False, "noid"),
+                          (sa, members[sa["name"]], True, False, "noid")])
     # user part classes that share enzyme AND signature, one a module type and one a vector type (mirror-image structures)
     for espec, G in tc.geometries():
         sig = [tc.rnd_signature(G.ovh, rng), tc.rnd_signature(G.ovh, rng)]
@@ -343,7 +358,7 @@ def run(tier, seed):
         for step, ev in zip(h, evs):
             cspec, seq = step[0], step[1]
             circ = step[2] if len(step) > 2 else True
-            plain = len(step) > 4 and step[4] == "plain"
+            plain = (len(step) > 4 and step[4] in ("plain", "noid")) and step[4]
             key = (cspec.get("name") or repr(sorted(cspec.items(), key=str)), seq, circ, plain)
             if key not in base:
                 base[key] = fresh_answer(cspec, seq, circ, plain)
@@ -448,6 +463,6 @@ def replay_case(rec):
         steps = [tuple(st) for st in r["steps"]]
         evs = run_history(steps)
         for st, ev in zip(steps, evs):
-            ev["fresh"] = fresh_answer(st[0], st[1], st[2] if len(st) > 2 else True, len(st) > 4 and st[4] == "plain")
+            ev["fresh"] = fresh_answer(st[0], st[1], st[2] if len(st) > 2 else True, (len(st) > 4 and st[4] in ("plain", "noid")) and st[4])
         return evs
     return generic_replay(rec, ex)
